@@ -25,6 +25,7 @@ mod eng_cell;
 mod child;
 mod eng_hrlive;
 mod eng_idle;
+mod eng_fault;
 
 use common::*;
 use std::{fs, io::Write, path::PathBuf};
@@ -43,6 +44,7 @@ fn engines() -> Vec<Box<dyn Engine>> {
     v.push(Box::new(eng_cell::CellEngine::default()));
     v.push(Box::new(eng_hrlive::HrLiveEngine));
     v.push(Box::new(eng_idle::IdleEngine));
+    v.push(Box::new(eng_fault::FaultEngine));
     v
 }
 
